@@ -50,13 +50,27 @@ Technique (numbers = the ALLOWED devices of RULES_GUIDE.md "What counts as stati
       be dec(read #2 of the iteration, whole, big-endian, unsigned) - lemma F0 -, the strings it shows are read #4 then read
       #6, stream order; a text whose leaves cannot be found is undecided); process-inject transform: 3 with forks over the symbolic tests
       (a `for` over a constant tuple of the code is followed once per element of that constant); NUL cut: 3 (the returned
-      term compared structurally with the finitely many forms of lemma P0); codec: 6 (constant) against the alias
-      table of lemma C0.
+      term compared structurally with the finitely many forms of lemma P0); null_terminated_str: 3 (the returned term is
+      <cut>.decode(codec), package calls kept symbolic; <cut> is a package function applied to the data that returns a P0
+      cut of its parameter - judged by the same comparison - or a P0 form over the parameter written in place, so the
+      helper inlined at its call site is the same thing; an r-variant / strip in place is reported, any other term is
+      undecided); codec: 6 (constant) against the alias table of lemma C0.
   R8  3 (the SETTING_* constants the returned term / the decisions on the way depend on), 1 (syntax queries), 6;
       domains / uris: 1, 3 (the returned value abstracted to "member m of each pair of self.domain_uri_pairs, first
       occurrences by member k" - `_Proj`: single-definition temporaries substituted, a comprehension, an appending `for`
       loop with a `not in` guard or a seen-set, map + lambda / itemgetter, dict / dict.fromkeys / .keys() / .values() are
-      transfer rules of that abstraction), 2 (dominance: the guards of the append).  Lemma O0.
+      transfer rules of that abstraction; `self.helper(<constants>)` is looked through by argument binding), 2 (dominance:
+      the guards of the append / the dict store), 4 (nullness: the padding value of the pairing helper - the fillvalue
+      that grouper hands to zip_longest, located through the call's arguments and the helper's default, device 1 - and
+      the set of padding FILTERS every element of the selection has passed: `if` clauses of a comprehension, tests that
+      dominate the append, filter(); a selection may drop exactly the padding of its own member, `uris` must: every way the
+      second member of a pair reaches the result passes a test that excludes the padding value; the opposite test, or a
+      test on the other member, is reported; a truth test is undecided for the selection).  Lemmas O0, G0.
+      killdate: 3 (the returned text's term per path, package calls kept symbolic: the values formatted into it, in order),
+      4 (digit windows [lo, hi) of the decimal value of SETTING_KILLDATE: //, % by powers of ten, divmod, str / f-string +
+      slices + int under the named assumption "a well-formed YYYYMMDD has 8 digits" are transfer rules; the three fields
+      must be the windows [4, 8), [2, 4), [0, 2) in that order; a term that is not a window is undecided), the split form
+      (SETTING_KILLDATE_YEAR / _MONTH / _DAY): the three settings in that order.  Lemma K0.
   R9  3, 4/5 (the four sign cases zero / non-zero of the two integers of an entry, as abstract values keyed by their
       offset; lengths domain for the offsets of the reads), structural comparison of the reported text's term.  Lemma N0.
   R10 3 (path-wise value flow of parse_pivot_frame; the returned term and the term of its length brought to the normal
@@ -115,6 +129,15 @@ Lemmas (each used by a transfer rule below; anything else about an assumed or sy
   O0  a dict keeps the position of the first insertion of each distinct key (and the last value assigned to it);
       iterating it / .keys() yields the keys, .values() one value per distinct key; dict.fromkeys(it) / dict(pairs)
       insert in iteration order; `if x not in acc: acc.append(x)` keeps the first occurrence of every distinct x.
+  G0  grouper(it, n) = zip_longest(*[iter(it)] * n, fillvalue=f): every group but the last is complete, the last is padded
+      with f after its real members, and its first member is never padding (a group is only started by a real element) -
+      so with n = 2 only the SECOND member of a pair can be the padding value, and a test of the first member against it
+      is vacuous.  Filtering member j by "is not the padding" commutes with de-duplication by member j.
+  K0  for an integer K >= 0 and a, b >= 0: K // 10**a drops the a lowest decimal digits, K % 10**b keeps the b lowest,
+      (K // 10**a) // 10**b == K // 10**(a+b), divmod(K, c) == (K // c, K % c); so every composition of these is a digit
+      window [lo, hi) = K // 10**lo % 10**(hi - lo).  The decimal text of an 8-digit K has its digit i (from the right)
+      at character 7 - i, so int(str(K)[a:b]) is the window [8 - b, 8 - a).  The digits of K are independent: two
+      windows with different bounds inside the 8 digits differ for some K.
   F0  for w >= 1 bytes: the signed and the unsigned big-endian decoding differ exactly on the values with the top bit set
       (D2 and its converse), for w >= 2 the big- and the little-endian decoding differ on some value, a decode of a proper
       part of the bytes ignores the rest; a decode of MORE bytes than the string has (data[:4] of 2 bytes) is the decode of
@@ -133,7 +156,7 @@ import os
 
 from csverif import tables
 from csverif.astutil import (
-    arg as _arg, assignments_to, bind_args, body_walk, compare_parts, const_eval, dotted, fn_calls, is_const, kwarg, NotConst, param_annotation,
+    arg as _arg, assignments_to, bind_args, body_walk, compare_parts, conjuncts, const_eval, dotted, fn_calls, is_const, kwarg, NotConst, param_annotation,
     param_defaults, params, src,
 )
 
@@ -170,7 +193,14 @@ def run(ctx):
         "of each group enabled' (18 states standing for all 2^23 flag vectors); pretty-function table entries applied to a symbolic "
         "argument ('which decoder is applied to the data'); attributes used on cstruct instances checked against the "
         "installed dissect.cstruct sources; derived properties read the setting their name says; domains / uris are the first / "
-        "second member of each pair of domain_uri_pairs, de-duplicated (if at all) by that same member; the pivot frame header "
+        "second member of each pair of domain_uri_pairs, de-duplicated (if at all) by that same member, and filtered at most by a test that "
+        "drops the padding value of the pairing helper (the fillvalue grouper hands to zip_longest, None) of that same member; uris (List[str]) "
+        "must not contain that padding value: every way the second member of a pair reaches the result passes a test that excludes it (nullness; "
+        "a comprehension `if`, a test dominating the append / dict store of a loop, filter(), a helper method called with constants are the same fact); "
+        "killdate: the three fields shown for the packed form are the decimal digit windows [4,8), [2,4), [0,2) of SETTING_KILLDATE in that order "
+        "(string slices of the 8-digit text, // and % by powers of ten and divmod are brought to one window normal form), the split form shows "
+        "SETTING_KILLDATE_YEAR, _MONTH, _DAY in that order; null_terminated_str decodes the data cut at its first NUL (by the helper or by the same cut written in place) "
+        "with a total single-byte codec; the pivot frame header "
         "decoder returns exactly the window (offset 2, length L - 4) of the data, L the big-endian unsigned 16-bit prefix at "
         "offset 0 (stream reads and slices brought to one window normal form, lengths compared as linear forms); every decoder a "
         "pretty-function entry refers to returns a value of its own: a mutable result (list of steps) is not kept by a memoising "
@@ -181,7 +211,8 @@ def run(ctx):
         "(whatever spells the decode: u16be, int.from_bytes, struct.unpack, a precompiled struct.Struct from a table keyed by the type), for "
         "TYPE_PTR the bytes themselves."
     )
-    rep.not_decided = ["decoded byte arguments for all programs", "parse_gargle endianness (no independent reference)", "killdate formatting, IPv4 rendering", "whether domains / uris are de-duplicated at all (only by which member)",
+    rep.not_decided = ["decoded byte arguments for all programs", "parse_gargle endianness (no independent reference)", "killdate: format specifications / separators of the text, a field computed by anything but a digit window of the decimal value (undecided), values with fewer than 8 digits (not well-formed)", "IPv4 rendering",
+                       "whether domains / uris are de-duplicated at all (only by which member)", "uris / domains filtered by a truth test (also drops empty strings: undecided); a pairing helper whose fill value is not a constant (undecided)",
                        "a signed decode of the frame-header length prefix (undecided)",
                        "execute list: the literal parts of the entry text (separator '!', '+0x', hex formatting, omission of a zero offset) are not compared; an entry text whose reads / integers cannot be found as leaves of its term is undecided (R7 start-address obligations)",
                        "any test on an assumed or symbolic value that the lemmas of the module docstring do not decide (the obligation is then undecided)",
@@ -215,6 +246,9 @@ def run(ctx):
                         "lemma C0: latin-1 (and its aliases) maps every byte to exactly one character",
                         "lemma W0: byte windows - slices with non-negative in-range bounds, x[:-k], nested slices and complete stream reads denote (offset, length) windows of the data",
                         "lemma O0: dicts keep first-insertion order of distinct keys; `if x not in acc: acc.append(x)` keeps first occurrences",
+                        "lemma G0: itertools.zip_longest over n references to one iterator pads only the last group, after its real members, with fillvalue (default None) - the first member of a group is never padding (library semantics)",
+                        "lemma K0: // and % by powers of ten and divmod cut digit windows of a non-negative integer; the decimal text of an 8-digit number has digit i (from the right) at character 7 - i; "
+                        "format: SETTING_KILLDATE is the decimal number YYYYMMDD with a four-digit year (property statement / Cobalt Strike)",
                         "execute list format: opcode byte; for the executors with a spoofed start address a big-endian unsigned 16-bit offset, then module and function as u32be-length-prefixed strings, shown as module!function+0xoffset",
                         "frame header format (property statement): u16be L, L - 4 header bytes, 4-byte frame-size placeholder; a well-formed L is >= 4",
                         "settings block format: a TYPE_SHORT / TYPE_INT value is 2 / 4 bytes, network byte order, unsigned (_FIXED_WIDTH in rules/c03.py); a TYPE_PTR value is `length` raw bytes; "
@@ -3652,15 +3686,33 @@ def r7(ctx):
         if enc is None:
             enc = pos[0] if pos else "utf-8"
         codec = enc.lower().replace("_", "-") if isinstance(enc, str) else None
+        # what is decoded: the data cut at its first NUL - by a package function applied to the data that returns
+        # that cut (null_terminated_bytes, judged above; any other helper is judged here the same way), or by the
+        # cut written out in place (the helper inlined: one of the forms of lemma P0 over the parameter itself)
+        p0 = params(h.node)[0] if params(h.node) else None
         inv = _invocation(inner)
-        cut = inv is not None and inv[0] == "beacon.null_terminated_bytes" and list(inv[1].values()) == [("param", params(h.node)[0])]
+        if inv is not None:
+            if list(inv[1].values()) != [("param", p0)]:
+                cut, cut_why = False, f"{inv[0]} is not applied to the data alone"
+            elif inv[0] == g.fq:
+                cut, cut_why = (True if cut_ok is not False else False), f"the cut is {inv[0]}(data)"
+            else:
+                callee = ctx.repo.func(inv[0]) if ctx.repo.has_func(inv[0]) else None
+                cut, cut_why = _nul_cut(ctx, callee) if callee is not None else (None, f"{inv[0]} could not be looked at")
+        else:
+            cut, cut_why = _nul_cut_terms([inner], _Par(p0))
         shape = True
+    text = "null_terminated_bytes(data).decode(<total single-byte codec>)"
     if shape is None:
-        ctx.undecided("R7", "AGREE", h, "null_terminated_bytes(data).decode(<total single-byte codec>)", "the returned value is not a single .decode(..) of bytes" + (f" ({stop})" if stop else ""), h.node)
+        ctx.undecided("R7", "AGREE", h, text, "the returned value is not a single .decode(..) of bytes" + (f" ({stop})" if stop else ""), h.node)
     else:
-        ok = codec in ("latin-1", "latin1", "iso-8859-1", "iso8859-1", "l1", "8859", "cp819", "iso-ir-100") and bool(cut)
-        ctx.ob("R7", "AGREE", h, "null_terminated_bytes(data).decode(<total single-byte codec>)", ok,
-               f"decodes the NUL-cut bytes={bool(cut)} with codec {codec!r}" + ("" if ok else " (required latin-1: one character per byte, nothing dropped or remapped)"), h.node)
+        total = codec in ("latin-1", "latin1", "iso-8859-1", "iso8859-1", "l1", "8859", "cp819", "iso-ir-100")
+        if total and cut is None:
+            ctx.undecided("R7", "AGREE", h, text, f"what is decoded is not recognised as the data cut at its first NUL: {cut_why}", h.node)
+        else:
+            ok = total and bool(cut)
+            ctx.ob("R7", "AGREE", h, text, ok,
+                   f"decodes the NUL-cut bytes={bool(cut)} ({cut_why}) with codec {codec!r}" + ("" if total else " (required latin-1: one character per byte, nothing dropped or remapped)"), h.node)
 
 
 def _nul_cut(ctx, g):
@@ -3668,9 +3720,15 @@ def _nul_cut(ctx, g):
     paths, stop = _run(ctx, g)
     if stop is not None or not paths:
         return None, f"evaluation stopped: {stop}"
-    p0 = params(g.node)[0]
-    data = _Par(p0)
-    vals = {_d(p.value) for p in paths}
+    ps = params(g.node)
+    if not ps:
+        return None, "the function has no parameter"
+    return _nul_cut_terms([p.value for p in paths], _Par(ps[0]))
+
+
+def _nul_cut_terms(values, data):
+    """Are the terms `values` each "`data` up to its first NUL" (lemma P0)?  (True/False/None, detail)"""
+    vals = {_d(v) for v in values}
     good = {
         _d(_T("item", (_T("meth:partition", (data, b"\x00")), 0))),
         _d(_T("getitem", (_T("meth:partition", (data, b"\x00")), 0))),
@@ -3683,7 +3741,7 @@ def _nul_cut(ctx, g):
     shown = sorted(_show(v) for v in vals)
     # a value cut from the data at the *last* NUL or by stripping: located (it is what the function returns) and wrong
     text = " ".join(repr(v) for v in vals)
-    if all(isinstance(p.value, _T) for p in paths) and any(t in text for t in ("meth:rpartition", "meth:rsplit", "meth:rstrip", "meth:strip", "meth:rfind", "meth:rindex")):
+    if all(isinstance(v, _T) for v in values) and any(t in text for t in ("meth:rpartition", "meth:rsplit", "meth:rstrip", "meth:strip", "meth:rfind", "meth:rindex")):
         return False, f"NUL cut is {shown}"
     return None, f"the returned value {shown} is not a cut the rule understands"
 
@@ -3915,23 +3973,35 @@ class _Proj:
     (policy devices 1 and 3: syntax queries, single-definition temporaries substituted, dominance for the guards of an
     accumulating loop; nothing is evaluated).  Abstract values:
       ("pairs",)      the pair list itself (or list / tuple / iter / an identity comprehension of it)
-      ("seq", m, k)   an ordered collection holding member m (0 | 1) of the pairs; k is None when every pair contributes,
-                      else the member by whose first occurrence an element is kept (k == m: the distinct members m in
-                      order of first occurrence)
-      ("dict", k, v)  a dict keyed by member k of the pairs with member v (or None) as value
+      ("seq", m, k, F)   an ordered collection holding member m (0 | 1) of the pairs; k is None when every pair
+                      contributes, else the member by whose first occurrence an element is kept (k == m: the distinct
+                      members m in order of first occurrence)
+      ("dict", k, v, F)  a dict keyed by member k of the pairs with member v (or None) as value
       None            anything else (not understood -> the obligation is undecided)
+    F (nullness, device 4) is the set of FILTERS every element has passed on its way into the collection: (j, kind) says
+    "member j of the pair the element comes from was tested to be different from the padding value of the pairing helper"
+    - kind "exact": the test fails for the padding value only (`x is not None`, `x != None`, their negations on the
+    other branch), kind "more": it fails for other values too (truthiness: also drops ''), kind "inverse": the test is
+    the opposite one - only the padding value passes (reported).  A filter is an `if` of a
+    comprehension, a test that dominates the append / the store of an accumulating loop (`if u is None: continue` and
+    `if u is not None and u not in acc:` are the same dominance fact), or filter() with None / a lambda.  Filtering
+    member j by its own padding commutes with de-duplication by member j, so the order of the two does not matter.
     Transfer rules (facts of the Python data model, lemma O0): a dict keeps the position of the FIRST insertion of each
     distinct key; iterating it / .keys() yields the keys, .values() one value per distinct key; dict.fromkeys(it) and
     dict(pairs) insert in iteration order; `if x not in acc: acc.append(x)` (or a seen-set fed with the same x under the
-    same guard) keeps the first occurrence of every distinct x.  A comprehension, a `for` loop that appends, map() with a
-    lambda / itemgetter, tuple targets and `p[i]` subscripts are all the same selection."""
+    same guard) keeps the first occurrence of every distinct x; `d = {}; for ..: d[x] = None` is dict.fromkeys.  A
+    comprehension, a `for` loop that appends, map() with a lambda / itemgetter, tuple targets and `p[i]` subscripts are
+    all the same selection; `self.helper(<constants>)` is the value the helper method returns with its parameters bound
+    to those constants (`_method`)."""
 
     _DICTS = ("dict", "OrderedDict", "collections.OrderedDict")
 
-    def __init__(self, ctx, f):
+    def __init__(self, ctx, f, pad=None, bind=None):
         from csverif.q import FuncView
 
         self.ctx, self.f, self.fn = ctx, f, f.node
+        self.pad = pad  # (value,) - the constant the pairing helper pads incomplete groups with; None: not known
+        self.bind = bind or {}  # parameter -> constant, when the function is looked at for one call with constant arguments
         self.fv = FuncView.of(f.node)
         ps = params(f.node)
         self.selfname = ps[0] if ps else "self"
@@ -3985,16 +4055,58 @@ class _Proj:
                 return "whole"
             if isinstance(x, ast.Subscript) and isinstance(x.value, ast.Name) and x.value.id == target.id and not isinstance(x.slice, ast.Slice):
                 k = _c(x.slice)
+                if k is None and isinstance(x.slice, ast.Name) and x.slice.id in self.bind and not assignments_to(self.fn, x.slice.id):
+                    k = self.bind[x.slice.id]  # a parameter that this call binds to a constant (argument binding)
                 if isinstance(k, int) and not isinstance(k, bool):
                     return {0: 0, -2: 0, 1: 1, -1: 1}.get(k)
         return None
 
-    def _select(self, source, m):
-        """the collection obtained by taking `m` of every element of `source`"""
+    def _excludes(self, test, pol):
+        """(expression, kind) when `test` having the truth value `pol` implies that the expression is not the padding
+        value; kind "exact": it has that truth value for every other value, "more": not for all of them.  Else None."""
+        if self.pad is None:
+            return None
+        pad = self.pad[0]
+        while isinstance(test, ast.UnaryOp) and isinstance(test.op, ast.Not):
+            test, pol = test.operand, not pol
+        if isinstance(test, ast.Compare) and len(test.ops) == 1:
+            op = test.ops[0]
+            for l, r in ((test.left, test.comparators[0]), (test.comparators[0], test.left)):
+                if not (isinstance(r, ast.Constant) and type(r.value) is type(pad) and r.value == pad):
+                    continue
+                if isinstance(op, (ast.Is, ast.IsNot)) and pad is not None:
+                    return None  # identity with a constant that is not a singleton says nothing about equality
+                if (isinstance(op, (ast.IsNot, ast.NotEq)) and pol) or (isinstance(op, (ast.Is, ast.Eq)) and not pol):
+                    return l, "exact"
+                if isinstance(op, (ast.IsNot, ast.NotEq, ast.Is, ast.Eq)):
+                    return l, "inverse"  # the test lets through the padding value only
+            return None
+        if pol and isinstance(test, (ast.Name, ast.Subscript)) and (pad is None or (isinstance(pad, (str, bytes, int)) and not pad)):
+            return test, "more"  # truthiness: the (falsy) padding value fails it - and so does every other falsy value
+        return None
+
+    def _filter(self, test, pol, target):
+        """(member, kind) for a test (holding with truth value pol) on a member of the element bound to `target`"""
+        r = self._excludes(test, pol)
+        if r is None:
+            return None
+        m = self.member(r[0], target)
+        return (m, r[1]) if m in (0, 1, "whole") else None
+
+    def _select(self, source, m, flt=frozenset()):
+        """the collection obtained by taking `m` of every element of `source` that passes the filters `flt`"""
+        if source is None:
+            return None
+        if source[0] == "dict":
+            source = ("seq", source[1], source[1], source[3])  # iterating a dict yields its keys (lemma O0)
         if source == ("pairs",):
-            return ("seq", m, None) if m in (0, 1) else ("pairs",) if m == "whole" else None
-        if source is not None and source[0] == "seq" and m == "whole":
-            return source
+            if any(j not in (0, 1) for j, _k in flt):
+                return None
+            return ("seq", m, None, frozenset(flt)) if m in (0, 1) else ("pairs",) if m == "whole" and not flt else None
+        if source[0] == "seq" and m == "whole":
+            if any(j != "whole" for j, _k in flt):
+                return None
+            return source[:3] + (source[3] | frozenset((source[1], k) for _j, k in flt),)
         return None
 
     def value(self, e, depth=0):
@@ -4004,6 +4116,9 @@ class _Proj:
             if e.id in params(self.fn):
                 return None
             acc = self.accumulator(e.id, depth)
+            if acc is not NotImplemented:
+                return acc
+            acc = self.dict_accumulator(e.id, depth)
             if acc is not NotImplemented:
                 return acc
             defs = assignments_to(self.fn, e.id)
@@ -4016,36 +4131,45 @@ class _Proj:
             if len(e.generators) != 1:
                 return None
             g = e.generators[0]
-            if g.ifs or g.is_async:
+            if g.is_async:
                 return None
+            flt = set()
+            for t in g.ifs:
+                for c in conjuncts(t):
+                    fl = self._filter(c, True, g.target)
+                    if fl is None:
+                        return None
+                    flt.add(fl)
             source = self.value(g.iter, depth + 1)
             if isinstance(e, ast.DictComp):
-                if source != ("pairs",):
+                if source != ("pairs",) or any(j not in (0, 1) for j, _k in flt):
                     return None
                 mk = self.member(e.key, g.target)
                 mv = None if is_const(e.value, None) else self.member(e.value, g.target)
                 if mk in (0, 1) and (mv in (0, 1) or is_const(e.value, None)):
-                    return ("dict", mk, mv)
+                    return ("dict", mk, mv, frozenset(flt))
                 return None
-            return self._select(source, self.member(e.elt, g.target))
+            return self._select(source, self.member(e.elt, g.target), frozenset(flt))
         if isinstance(e, ast.Call):
+            fd = dotted(e.func)
+            if fd is not None and fd.startswith(self.selfname + ".") and fd.count(".") == 1:
+                return self._method(e, fd.split(".")[1], depth)
             if e.keywords or any(isinstance(a, ast.Starred) for a in e.args):
                 return None
-            fd = dotted(e.func)
             if fd in ("list", "tuple", "iter") and len(e.args) == 1:
                 v = self.value(e.args[0], depth + 1)
                 if v is not None and v[0] == "dict":
-                    return ("seq", v[1], v[1])
+                    return ("seq", v[1], v[1], v[3])
                 return v
             if fd in self._DICTS and len(e.args) == 1:
                 v = self.value(e.args[0], depth + 1)
                 if v == ("pairs",):
-                    return ("dict", 0, 1)
+                    return ("dict", 0, 1, frozenset())
                 return v if v is not None and v[0] == "dict" else None
             if isinstance(e.func, ast.Attribute) and e.func.attr == "fromkeys" and dotted(e.func.value) in self._DICTS and 1 <= len(e.args) <= 2:
                 v = self.value(e.args[0], depth + 1)
                 if v is not None and v[0] == "seq" and v[2] in (None, v[1]):
-                    return ("dict", v[1], None)
+                    return ("dict", v[1], None, v[3])
                 return None
             if isinstance(e.func, ast.Attribute) and not e.args and e.func.attr in ("keys", "values", "copy"):
                 v = self.value(e.func.value, depth + 1)
@@ -4053,9 +4177,25 @@ class _Proj:
                     if e.func.attr == "copy":
                         return v
                     if e.func.attr == "keys":
-                        return ("seq", v[1], v[1])
-                    return ("seq", v[2], v[1]) if v[2] is not None else None
+                        return ("seq", v[1], v[1], v[3])
+                    return ("seq", v[2], v[1], v[3]) if v[2] is not None else None
                 return v if v is not None and e.func.attr == "copy" else None
+            if fd == "filter" and len(e.args) == 2:
+                source = self.value(e.args[1], depth + 1)
+                fn = e.args[0]
+                if is_const(fn, None) and self.pad is not None:
+                    t = ast.Name(id="<element>", ctx=ast.Load())
+                    fl = self._filter(t, True, ast.Name(id="<element>", ctx=ast.Store()))
+                    return self._select(source, "whole", frozenset([fl])) if fl is not None and source != ("pairs",) else None
+                if isinstance(fn, ast.Lambda) and len(fn.args.args) == 1 and not (fn.args.vararg or fn.args.kwarg or fn.args.kwonlyargs or fn.args.defaults):
+                    flt = set()
+                    for c in conjuncts(fn.body):
+                        fl = self._filter(c, True, ast.Name(id=fn.args.args[0].arg, ctx=ast.Store()))
+                        if fl is None:
+                            return None
+                        flt.add(fl)
+                    return self._select(source, "whole", frozenset(flt)) if source != ("pairs",) else None
+                return None
             if fd == "map" and len(e.args) == 2:
                 source = self.value(e.args[1], depth + 1)
                 fn = e.args[0]
@@ -4068,11 +4208,28 @@ class _Proj:
                 return None
         return None
 
+    def _method(self, call, name, depth):
+        """`self.helper(<constants>)`: what the helper method of the same class returns for these arguments (argument
+        binding, the parameters replaced by the constants where a pair is subscripted)"""
+        fq = self.f.fq.rsplit(".", 1)[0] + "." + name
+        if depth > 4 or not self.ctx.repo.has_func(fq):
+            return None
+        g = self.ctx.repo.func(fq)
+        if g.node.decorator_list or not isinstance(g.node, ast.FunctionDef) or g.node.args.vararg or g.node.args.kwarg:
+            return None
+        bound = bind_args(call, g.node, skip_self=True)
+        bind = {}
+        for k, v in bound.items():
+            if not isinstance(v, ast.Constant):
+                return None
+            bind[k] = v.value
+        sub = _Proj(self.ctx, g, self.pad, bind)
+        vals = {v for v, _n in sub.returned()}
+        return next(iter(vals)) if len(vals) == 1 else None
+
     def accumulator(self, name, depth=0):
         """The list built by `name = []; for <pair> in <pairs>: [if x not in ...:] name.append(x)`.  NotImplemented when
         `name` is not a local that starts as an empty list; None when it is one but is used in a way not understood."""
-        from csverif.q import dominating_conditions
-
         defs = assignments_to(self.fn, name)
         if len(defs) != 1 or defs[0][1] is None or not self._empty_list(defs[0][1]):
             return NotImplemented
@@ -4093,7 +4250,71 @@ class _Proj:
                 return None
         if not appends:
             return None
-        loops = {id(self.fv.enclosing(a, (ast.For, ast.AsyncFor, ast.While))): self.fv.enclosing(a, (ast.For, ast.AsyncFor, ast.While)) for a in appends}
+        loop = self._loop_of(appends)
+        if loop is None:
+            return None
+        source = self.value(loop.iter, depth + 1)
+        if source is None:
+            return None
+        guards = self._loop_guards(loop)
+        ms, keys, flts = set(), set(), set()
+        for a in appends:
+            ms.add(self.member(a.args[0], loop.target))
+            gs = guards(a)
+            if gs is None:
+                return None
+            for my, cont in gs[0]:
+                if my not in (0, 1, "whole"):
+                    return None
+                if cont != name and not self._seen_set(cont, loop, my, gs, guards):
+                    return None
+                keys.add(my)
+            if not gs[0]:
+                keys.add(None)
+            flts.add(gs[1])
+        if len(ms) != 1 or len(keys) != 1 or len(flts) != 1:
+            return None
+        m, key = next(iter(ms)), next(iter(keys))
+        sel = self._select(source, m, next(iter(flts)))
+        if sel is None or sel[0] != "seq":
+            return None
+        if key is None:
+            return sel
+        if source == ("pairs",) and key in (0, 1):
+            return ("seq", sel[1], key, sel[3])
+        if source[0] == "seq" and key == "whole" and sel[2] in (None, sel[1]):
+            return ("seq", sel[1], sel[1], sel[3])
+        return None
+
+    def _loop_guards(self, loop):
+        from csverif.q import dominating_conditions
+
+        inside = {id(n) for n in ast.walk(loop)}
+
+        def guards(node):
+            """(sorted [(member tested, container name)] of the `not in` guards, frozenset of the padding filters) that
+            dominate a statement of the loop; None if it has a guard of another kind"""
+            out, flt = [], set()
+            for _t, pol, tn in dominating_conditions(self.ctx, self.f, node):
+                if id(tn) not in inside:
+                    continue
+                if isinstance(tn, ast.Compare) and len(tn.ops) == 1 and isinstance(tn.ops[0], (ast.In, ast.NotIn)) and isinstance(tn.comparators[0], ast.Name):
+                    if isinstance(tn.ops[0], ast.NotIn) != pol:
+                        return None  # appended only when already present
+                    out.append((self.member(tn.left, loop.target), tn.comparators[0].id))
+                else:
+                    fl = self._filter(tn, pol, loop.target)
+                    if fl is None:
+                        return None
+                    flt.add(fl)
+            return sorted(out, key=repr), frozenset(flt)
+
+        return guards
+
+    def _loop_of(self, nodes):
+        """the single `for` loop (not nested in another loop, no else / break / return, loop variables bound only by it)
+        that holds all of `nodes`; None otherwise"""
+        loops = {id(self.fv.enclosing(a, (ast.For, ast.AsyncFor, ast.While))): self.fv.enclosing(a, (ast.For, ast.AsyncFor, ast.While)) for a in nodes}
         if len(loops) != 1:
             return None
         loop = next(iter(loops.values()))
@@ -4104,50 +4325,48 @@ class _Proj:
         tnames = [n.id for n in ast.walk(loop.target) if isinstance(n, ast.Name)]
         if any(len(assignments_to(self.fn, t)) != 1 for t in tnames):
             return None  # the loop variable is re-bound: it is not the member of the pair any more
-        source = self.value(loop.iter, depth + 1)
-        inside = {id(n) for n in ast.walk(loop)}
+        return loop
 
-        def guards(node):
-            """[(member tested, container name)] of the `not in` guards of a statement of the loop; None if it has another guard"""
-            out = []
-            for _t, pol, tn in dominating_conditions(self.ctx, self.f, node):
-                if id(tn) not in inside:
-                    continue
-                if isinstance(tn, ast.Compare) and len(tn.ops) == 1 and isinstance(tn.ops[0], (ast.In, ast.NotIn)) and isinstance(tn.comparators[0], ast.Name):
-                    if isinstance(tn.ops[0], ast.NotIn) != pol:
-                        return None  # appended only when already present
-                    out.append((self.member(tn.left, loop.target), tn.comparators[0].id))
-                else:
-                    return None
-            return out
-
-        ms, keys = set(), set()
-        for a in appends:
-            ms.add(self.member(a.args[0], loop.target))
-            gs = guards(a)
-            if gs is None:
+    def dict_accumulator(self, name, depth=0):
+        """The dict built by `name = {}; for <pair> in <pairs>: [if <filter>:] name[x] = y` (y None or a member).
+        NotImplemented when `name` is not a local that starts as an empty dict; None when it is but is not understood."""
+        defs = assignments_to(self.fn, name)
+        e0 = defs[0][1] if len(defs) == 1 else None
+        if e0 is None or not ((isinstance(e0, ast.Dict) and not e0.keys) or (isinstance(e0, ast.Call) and dotted(e0.func) in self._DICTS and not e0.args and not e0.keywords)):
+            return NotImplemented
+        stores = []
+        for u in body_walk(self.fn):
+            if not (isinstance(u, ast.Name) and u.id == name and isinstance(u.ctx, ast.Load)):
+                continue
+            par = self.fv.parent.get(id(u))
+            gp = self.fv.parent.get(id(par)) if par is not None else None
+            if isinstance(par, ast.Subscript) and par.value is u and isinstance(par.ctx, ast.Store) and isinstance(gp, ast.Assign) and gp.targets == [par]:
+                stores.append(gp)
+            elif isinstance(par, ast.Subscript) and par.value is u:
                 return None
-            for my, cont in gs:
-                if my not in (0, 1, "whole"):
-                    return None
-                if cont != name and not self._seen_set(cont, loop, my, sorted(gs, key=repr), guards):
-                    return None
-                keys.add(my)
-            if not gs:
-                keys.add(None)
-        if len(ms) != 1 or len(keys) != 1:
+            elif isinstance(par, ast.Attribute) and par.attr not in ("keys", "values", "copy"):
+                return None
+            elif isinstance(par, ast.Compare) and not (len(par.ops) == 1 and isinstance(par.ops[0], (ast.In, ast.NotIn)) and par.comparators[0] is u):
+                return None
+        if not stores:
             return None
-        m, key = next(iter(ms)), next(iter(keys))
-        sel = self._select(source, m)
-        if sel is None or sel[0] != "seq":
+        loop = self._loop_of(stores)
+        if loop is None or self.value(loop.iter, depth + 1) != ("pairs",):
             return None
-        if key is None:
-            return sel
-        if source == ("pairs",) and key in (0, 1):
-            return ("seq", sel[1], key)
-        if source[0] == "seq" and key == "whole" and sel[2] in (None, sel[1]):
-            return ("seq", sel[1], sel[1])
-        return None
+        guards = self._loop_guards(loop)
+        out = set()
+        for a in stores:
+            mk = self.member(a.targets[0].slice, loop.target)
+            mv = None if is_const(a.value, None) else self.member(a.value, loop.target)
+            gs = guards(a)
+            if gs is None or mk not in (0, 1) or not (mv in (0, 1) or is_const(a.value, None)) or any(j not in (0, 1) for j, _k in gs[1]):
+                return None
+            # `if x not in d: d[x] = ..` inserts where the plain store does (first occurrence); with a member as value
+            # it would keep the FIRST value instead of the last (lemma O0) - not modelled
+            if any(cont != name or my != mk for my, cont in gs[0]) or (gs[0] and mv is not None):
+                return None
+            out.add(("dict", mk, mv, gs[1]))
+        return next(iter(out)) if len(out) == 1 else None
 
     def _seen_set(self, cont, loop, my, gs, guards):
         """`cont` is a set that starts empty and receives, under the same guards as the append, the same member that the
@@ -4174,7 +4393,10 @@ class _Proj:
             if self.fv.enclosing(a, (ast.For, ast.AsyncFor, ast.While)) is not loop or self.member(a.args[0], loop.target) != my:
                 return False
             g2 = guards(a)
-            if g2 is None or sorted(g2, key=repr) != gs:
+            # the same `not in` guards; of the padding filters the add may have passed fewer than the append (the set
+            # then also remembers dropped elements: de-duplicating before filtering - the same result when the filter
+            # tests the de-duplication key itself or is vacuous, a reported mismatch otherwise)
+            if g2 is None or g2[0] != gs[0] or not g2[1] <= gs[1]:
                 return False
         return True
 
@@ -4215,27 +4437,217 @@ def r8(ctx):
     ctx.ob("R8", "AGREE", pairs, "grouper(split(','), 2)", ok and len(sp) == 1, "pairs are consecutive members of the comma-separated list" if ok else "pairing is not grouper(..., 2)")
     # domains / uris: the distinct first / second members of the pairs, in order of first occurrence.  The value the
     # property returns is abstracted to (which member of each pair, by which member it is de-duplicated) - see _Proj.
+    # The pairing helper pads the last, incomplete group (a lone domain, an all-NUL value, an odd number of fields) with
+    # its fill value - the PADDING value, located here from the grouper call and the helper's zip_longest call.  Lemma G0:
+    # only positions after the first of the last group are ever padded.  A projection may drop exactly the padding (a
+    # test on the projected member itself; a test on the first member is vacuous by G0); `uris` - declared List[str],
+    # joined and .encode()d by its callers - has to: every way the second member of a pair reaches its result passes a
+    # test that excludes the padding value (nullness of the elements, device 4; the tests are the filters of `_Proj`).
+    pad = _padding(g[0], gf) if ok and gf is not None else None
     nth = ["first", "second"]
     for prop, idx in (("domains", 0), ("uris", 1)):
         f = ctx.repo.func(f"beacon.BeaconConfig.{prop}")
-        pj = _Proj(ctx, f)
+        pj = _Proj(ctx, f, pad)
         vals = pj.returned()
         seqs = [(v, n) for v, n in vals if v is not None and v[0] == "seq"]
-        bad = [(v, n) for v, n in seqs if v[1] != idx or v[2] not in (None, idx)]
+        bad = [(v, n) for v, n in seqs if v[1] != idx or v[2] not in (None, idx) or any(j not in (idx, 0) or k == "inverse" for j, k in v[3])]
+        more = [(v, n) for v, n in seqs if any(k != "exact" for _j, k in v[3])]
+        located = bool(seqs) and len(seqs) == len(vals)
         if bad:
             v, n = bad[0]
             why = f"takes the {nth[v[1]]} member of each pair (required: the {nth[idx]})" if v[1] != idx else \
-                f"keeps one {nth[idx]} member per distinct {nth[v[2]]} member (required: the distinct {nth[idx]} members)"
+                f"keeps one {nth[idx]} member per distinct {nth[v[2]]} member (required: the distinct {nth[idx]} members)" if v[2] not in (None, idx) else \
+                f"keeps only the pairs whose {nth[[j for j, k in v[3] if k == 'inverse'][0]]} member IS the padding value {pad[0]!r} (required: every {nth[idx]} member but the padding)" \
+                if any(k == "inverse" for _j, k in v[3]) else \
+                f"drops {nth[idx]} members by a test on the {nth[1 - idx]} member of their pair (required: every {nth[idx]} member; only the padding value {pad[0]!r} may be dropped)"
             ctx.ob("R8", "AGREE", f, prop, False, f"{why}: {src(n)[:100]}", n)
-        elif not seqs or len(seqs) != len(vals):
+        elif not located:
             n = next((n for v, n in vals if v is None or v[0] != "seq"), f.node)
             ctx.undecided("R8", "AGREE", f, prop, "the returned value is not recognised as a selection of one member of each pair of self.domain_uri_pairs"
                           + (f" ({src(n)[:80]})" if n is not f.node else ""), n)
+        elif more:
+            ctx.undecided("R8", "AGREE", f, prop, f"the selection is filtered by a truth test, which drops more than the padding value {pad[0]!r} (empty strings): not known to be "
+                          f"every {nth[idx]} member ({src(more[0][1])[:80]})", more[0][1])
         else:
-            ctx.ob("R8", "AGREE", f, prop, True, f"the {nth[idx]} member of each pair of self.domain_uri_pairs" + (", first occurrences" if seqs[0][0][2] is not None else ""), seqs[0][1])
+            ctx.ob("R8", "AGREE", f, prop, True, f"the {nth[idx]} member of each pair of self.domain_uri_pairs" + (", first occurrences" if seqs[0][0][2] is not None else "")
+                   + (f", without the padding value {pad[0]!r}" if seqs[0][0][3] else ""), seqs[0][1])
+        if idx == 0:
+            continue  # G0: the first member of a group is never padding
+        text = f"{prop}: no padding value of the pairing"
+        if pad is None:
+            ctx.undecided("R8", "ABS", f, text, "the value the pairing helper pads an incomplete group with could not be located (grouper call / zip_longest fillvalue)", f.node)
+        elif not located:
+            ctx.undecided("R8", "ABS", f, text, "the returned value is not recognised as a selection of one member of each pair of self.domain_uri_pairs", f.node)
+        else:
+            leak = [(v, n) for v, n in seqs if v[1] == idx and not any(j == idx and k != "inverse" for j, k in v[3])]
+            ctx.ob("R8", "ABS", f, text, not leak,
+                   f"every {nth[idx]} member passes a test that excludes the padding value {pad[0]!r} before it reaches the result" if not leak else
+                   f"the {nth[idx]} member of a pair reaches the result without a test that excludes the padding value {pad[0]!r} - a domain without URI (a lone domain, an all-NUL "
+                   f"value, an odd number of fields) puts {pad[0]!r} into the List[str]: {src(leak[0][1])[:100]}", (leak[0][1] if leak else seqs[0][1]))
+    _killdate(ctx)
     f = ctx.repo.func("beacon.BeaconConfig.max_setting_enum")
     ok = any(isinstance(c, ast.Call) and dotted(c.func) == "max" and c.args and dotted(c.args[0]) == "self.setting_enums" for c in fn_calls(f.node))
     ctx.ob("R8", "AGREE", f, "max(self.setting_enums)", ok, "highest setting index" if ok else "not max(self.setting_enums)")
+
+
+# Kill date.  SETTING_KILLDATE carries the date packed as the DECIMAL number YYYYMMDD; the derived property shows the
+# fields year / month / day, in that order.  Abstract domain (policy device 4, modular facts; lemma K0): a DIGIT WINDOW
+# [lo, hi) of a non-negative integer K is K // 10**lo % 10**(hi - lo) (hi None: no upper cut).  Transfer rules:
+#   K is the window [0, None);  w // 10**a is [lo + a, hi);  w % 10**b is [lo, min(hi, lo + b));
+#   divmod(w, c) is (w // c, w % c);  str(K) / f"{K}" of an 8-digit K (named assumption: a well-formed YYYYMMDD has a
+#   four-digit year) is the character window [0, 8), slicing [a:b] cuts character windows, int() of the characters [a, b)
+#   is the digit window [8 - b, 8 - a).
+# Two windows with different bounds inside the 8 digits differ for some K (the digits are independent), so a field whose
+# window is not the prescribed one is wrong for some kill date - however the window was spelled (string slices, // and %,
+# divmod).  Anything else (a multiplication, a date object, a division by a non-power of ten) is not a window: undecided.
+_KD_WIDTH = 8
+_KD_FIELDS = (("year", 4, 8), ("month", 2, 4), ("day", 0, 2))
+
+
+def _pow10(c):
+    if isinstance(c, bool) or not isinstance(c, int) or c < 1:
+        return None
+    k = 0
+    while c % 10 == 0:
+        c, k = c // 10, k + 1
+    return k if c == 1 else None
+
+
+def _setting_read(v):
+    """the SETTING_* name when the term is a lookup of that setting in a settings mapping (get / subscript), else None"""
+    if isinstance(v, _T) and v.op in ("meth:get", "getitem") and len(v.args) >= 2:
+        k = v.args[1]
+        if isinstance(k, _En) and isinstance(k.name, str):
+            k = k.name
+        if isinstance(k, str) and k.startswith("SETTING_"):
+            return k
+    return None
+
+
+def _digit_window(v, key, depth=0):
+    """("int", lo, hi) / ("chars", a, b) for a term that is a digit / character window of the setting `key`; None else"""
+    if depth > 30 or not isinstance(v, _T):
+        return None
+    if _setting_read(v) == key:
+        return ("int", 0, None)
+    sub = lambda x: _digit_window(x, key, depth + 1)
+    if v.op in ("binFloorDiv", "binMod") and len(v.args) == 2:
+        w, k = sub(v.args[0]), _pow10(v.args[1])
+        if w is None or w[0] != "int" or k is None:
+            return None
+        _t, lo, hi = w
+        if v.op == "binFloorDiv":
+            return ("int", lo + k, hi) if hi is None or lo + k < hi else ("int", hi, hi)
+        return ("int", lo, lo + k if hi is None else min(hi, lo + k))
+    if v.op in ("item", "getitem") and len(v.args) == 2 and isinstance(v.args[0], _T) and v.args[0].op == "call" and v.args[0].args[:1] == ("divmod",) \
+            and len(v.args[0].args) == 3 and v.args[1] in (0, 1) and not isinstance(v.args[1], bool):
+        return sub(_T("binFloorDiv" if v.args[1] == 0 else "binMod", v.args[0].args[1:]))
+    if v.op == "call" and len(v.args) == 2 and v.args[0] == "int":
+        w = sub(v.args[1])
+        if w is None:
+            return None
+        return w if w[0] == "int" else ("int", _KD_WIDTH - w[2], _KD_WIDTH - w[1])
+    if v.op == "call" and len(v.args) == 2 and v.args[0] == "str":
+        return ("chars", 0, _KD_WIDTH) if sub(v.args[1]) == ("int", 0, None) else None
+    if v.op == "fstr" and len(v.args) == 1 and isinstance(v.args[0], _T) and v.args[0].op == "fv" and v.args[0].args[1:] in ((-1, None), (-1, ""), (-1, "d"), (-1, "08d"), (-1, "08")):
+        return ("chars", 0, _KD_WIDTH) if sub(v.args[0].args[0]) == ("int", 0, None) else None
+    if v.op == "slice" and len(v.args) == 4 and v.args[3] in (None, 1):
+        w = sub(v.args[0])
+        if w is None or w[0] != "chars":
+            return None
+        n = w[2] - w[1]
+        bounds = []
+        for b, dflt in ((v.args[1], 0), (v.args[2], n)):
+            if b is None:
+                b = dflt
+            if isinstance(b, bool) or not isinstance(b, int):
+                return None
+            bounds.append(max(0, min(n, b + n if b < 0 else b)))
+        a, b = bounds
+        return ("chars", w[1] + a, w[1] + max(a, b))
+    return None
+
+
+def _killdate(ctx):
+    f = ctx.repo.func("beacon.BeaconConfig.killdate")
+    ev = _Ev(ctx)
+    ev.intercept = True
+    try:
+        res = ev.run(f)
+        stop = None
+    except (_Stop, RecursionError, AttributeError, TypeError, ValueError, KeyError, IndexError) as e:
+        res, stop = [], f"{type(e).__name__}: {e}"
+    packed, split, unknown = [], [], []
+    for _st, sig in res:
+        v = sig[1] if isinstance(sig, tuple) and sig[0] == "return" else None
+        if v is None:
+            continue  # no kill date
+        # the fields shown, in the order in which they appear in the text
+        fields = [a.args[0] for a in v.args if isinstance(a, _T) and a.op == "fv"] if isinstance(v, _T) and v.op == "fstr" else None
+        if fields is None or any(isinstance(a, _T) and a.op != "fv" for a in v.args):
+            unknown.append(_show(_d(v)))
+            continue
+        ws = [_digit_window(x, "SETTING_KILLDATE") for x in fields]
+        # the characters [a, b) of the 8-digit text shown as they are: the digits [8 - b, 8 - a), leading zeros kept
+        ws = [("int", _KD_WIDTH - w[2], _KD_WIDTH - w[1]) if w is not None and w[0] == "chars" else w for w in ws]
+        ks = [_setting_read(x) for x in fields]
+        if all(w is not None and w[0] == "int" for w in ws) and ws:
+            packed.append(ws)
+        elif all(k is not None and k != "SETTING_KILLDATE" for k in ks) and ks:
+            split.append(ks)
+        else:
+            unknown.append(", ".join(_show(_d(x)) for x in fields))
+    text = "YYYYMMDD: year, month, day are the decimal digits 1-4, 5-6, 7-8 of SETTING_KILLDATE"
+
+    def show(w):
+        return f"digits [{w[1]}, {'..' if w[2] is None else w[2]}) from the right"
+
+    if stop is not None or (not packed and not unknown):
+        ctx.undecided("R8", "ABS", f, text, f"the property could not be evaluated ({stop})" if stop else "no returned text shows fields computed from SETTING_KILLDATE", f.node)
+    else:
+        wrong = []
+        for ws in packed:
+            if len(ws) != len(_KD_FIELDS):
+                wrong.append(f"{len(ws)} fields of SETTING_KILLDATE are shown (required: year, month, day)")
+                continue
+            for (name, lo, hi), w in zip(_KD_FIELDS, ws):
+                if not (w[1] == lo and (w[2] == hi or (w[2] is None and hi == _KD_WIDTH))):
+                    wrong.append(f"the {name} field is {show(w)} of the decimal value (required [{lo}, {hi}): YYYYMMDD)")
+        if wrong:
+            ctx.ob("R8", "ABS", f, text, False, "; ".join(sorted(set(wrong))), f.node)
+        elif unknown:
+            ctx.undecided("R8", "ABS", f, text, f"a returned text is not recognised as fields of SETTING_KILLDATE: {unknown[0][:160]}", f.node)
+        else:
+            ctx.ob("R8", "ABS", f, text, True, "the three fields shown are the digit windows [4, 8), [2, 4), [0, 2) of the decimal value, in that order (lemma K0)", f.node)
+    text = "split kill date: SETTING_KILLDATE_YEAR, _MONTH, _DAY shown in that order"
+    want = ["SETTING_KILLDATE_YEAR", "SETTING_KILLDATE_MONTH", "SETTING_KILLDATE_DAY"]
+    if stop is not None or not split:
+        ctx.undecided("R8", "AGREE", f, text, f"the property could not be evaluated ({stop})" if stop else "no returned text shows the three settings", f.node)
+    else:
+        bad = [ks for ks in split if ks != want]
+        ctx.ob("R8", "AGREE", f, text, not bad, f"shows {bad[0]} (required {want})" if bad else "year, month, day settings in that order", f.node)
+
+
+def _padding(call, gf):
+    """(value,): the constant with which the pairing helper `gf`, called by `call`, fills an incomplete group - the
+    fillvalue it hands to itertools.zip_longest (library default: None), bound through the call's arguments and the
+    helper's own default.  None when it cannot be located."""
+    zl = [c for c in fn_calls(gf.node) if (dotted(c.func) or "").split(".")[-1] == "zip_longest"]
+    if len(zl) != 1:
+        return None
+    if any(k.arg is None for k in zl[0].keywords):
+        return None
+    fv = kwarg(zl[0], "fillvalue")
+    if fv is None:
+        return (None,)
+    if isinstance(fv, ast.Name) and fv.id in params(gf.node) and len(assignments_to(gf.node, fv.id)) == 0:
+        try:
+            fv = bind_args(call, gf.node).get(fv.id)
+        except Exception:
+            return None
+    if isinstance(fv, ast.Constant):
+        return (fv.value,)
+    return None
 
 
 def _setting_keys(ctx, f):
